@@ -231,6 +231,24 @@ def run(cx, rep):
                    "the computation %s is started before (or without) the in-progress mark MemoEmpty::Undefined: a recursive type re-enters it unboundedly" % c.best,
                    "%s:%s" % (c.file, c.line), sample={"fn": name, "computation": c.best, "dominated_by_insert": True})
         rep.floor("C05.3", "computation calls in %s" % name, len(comp), 1)
+        if not getmuts:
+            # the update moved into a helper: `settle(ctx, &key, &answer)` whose only map update is keyed by one of its
+            # parameters - the call stands for the update, its key is the argument at that position
+            for c in f.calls:
+                for t in c.local_target or ():
+                    h = F.fns.get(t)
+                    if h is None or not h.mir or h.id == f.id:
+                        continue
+                    hgm = [hc for hc in h.calls if (hc.path or "").endswith("BTreeMap::<K, V, A>::get_mut")]
+                    if len(hgm) != 1 or any((hc.path or "").endswith("::insert") or (hc.path or "").endswith("::remove") for hc in h.calls):
+                        continue
+                    hk = sorted(o[1] for o in Origins(FnFlow(h)).of_operand(hgm[0].term["args"][1]) if o[0] == "param")
+                    if len(hk) == 1 and hk[0] - 1 < len(c.term["args"]):
+                        c_key = sorted(o[1] for o in O.of_operand(c.term["args"][hk[0] - 1]) if o[0] == "param")
+                        getmuts = [type("HelperUpdate", (), {"bb": c.bb, "term": {"args": [None, c.term["args"][hk[0] - 1]]}, "file": c.file, "line": c.line})()]
+                        break
+                if getmuts:
+                    break
         rep.ob("C05.3", "%s/update-same-key" % name, len(getmuts) == 1 and keyparam(getmuts[0], 1) == kins and
                all(keyparam(g, 1) == kins for g in gets) and bool(kins),
                "the memo entry updated after the computation must be the one marked before it (keys derive from params %s / %s / %s)" % (
@@ -240,7 +258,8 @@ def run(cx, rep):
                    "the memo update must come after the computation", f.loc())
         # Undefined arm returns IsEmpty (HIR)
         tree = F.hir.get(f.id)
-        arms = [a for n in walk(tree["body"]) if n["k"] == "Match" for a in n["arms"] if (a["pat"].get("def") or "").endswith("MemoEmpty::Undefined")]
+        from facts import walk_inlined
+        arms = [a for n, _o in walk_inlined(F, f.id, depth=2) if n["k"] == "Match" for a in n["arms"] if (a["pat"].get("def") or "").endswith("MemoEmpty::Undefined")]
         ok = len(arms) == 1 and any((x.get("def") or "").endswith("IsEmptyStatus::IsEmpty") for x in walk(arms[0]["body"])) and \
             not any((x.get("def") or "").endswith("IsEmptyStatus::NotEmpty") for x in walk(arms[0]["body"]))
         rep.ob("C05.3", "%s/undefined-is-empty" % name, ok, "an in-progress (Undefined) entry must be read as IsEmpty (co-inductive hypothesis)", f.loc())
@@ -865,6 +884,18 @@ def own_rest_padding_rule(cx, rep, rid):
             for x in pushes:
                 n += 1
                 b = base(x["args"][-1])          # push(v) / resize(n, v)
+                if x["method"] in ("extend", "resize_with"):
+                    # extend((a..b).map(|_| v.clone())) / extend(repeat(v).take(n)) / resize_with(n, || v.clone())
+                    for y in hwalk(x["args"][-1]):
+                        if y["k"] == "Closure":
+                            yb = y["body"]
+                            while yb.get("k") == "BlockExpr" and not yb["block"].get("stmts") and yb["block"].get("expr"):
+                                yb = yb["block"]["expr"]
+                            b = base(yb)
+                            break
+                        if y["k"] == "Call" and "iter::repeat" in (y.get("callee") or "") and y.get("args"):
+                            b = base(y["args"][0])
+                            break
                 own = b["k"] == "Path" and b.get("res") == "local"
                 rep.ob(rid, "%s/pad-with-own-rest" % g.rsplit("::", 1)[-1], own,
                        "%s pads the accumulated prefix with a value that is not its own accumulated rest element (a field of another list atom): positions the accumulated type does not list belong to ITS rest, so the result of `string[] & [string, string]` depends on member order" % g,
@@ -942,7 +973,9 @@ def revocable_memo_rule(F, rep, entries):
     `[Y, X] extends never` was decided differently from `[X, Y] extends never`).  Accepted idioms: (i) a revocation
     log - `empty` answers are pushed onto a Vec field of the context, the entry point takes the log's length BEFORE the
     computation and, on the not-empty outcome, hands it to a function that pops the log back to that length and removes
-    each popped key from the memo table its entry point memoises in; (ii) the not-empty outcome clears the memo tables."""
+    each popped key from the memo table its entry point memoises in; (ii) the not-empty outcome clears the memo tables.
+    The dispatch on the outcome may sit in the entry point or in a helper that is handed the computed status (its
+    other arguments - the mark, a closure building the log entry - are read at the call)."""
     rep.rule("C05.12", "an `empty` answer memoised while an outer emptiness question is open is revoked when that question turns out not empty")
     for f, ins in entries:
         name = f.id
@@ -951,7 +984,6 @@ def revocable_memo_rule(F, rep, entries):
             rep.anchor_missing("C05.12", "typed HIR of %s" % name)
             continue
         body = tree["body"]
-        # the memo table of this entry point and its key: the insert of MemoEmpty::Undefined
         memo_field, key_lids = None, set()
         for n in walk(body):
             if n["k"] == "MethodCall" and n.get("method") == "insert" and any((x.get("def") or "").endswith("MemoEmpty::Undefined") for a in n["args"] for x in walk(a)):
@@ -960,8 +992,6 @@ def revocable_memo_rule(F, rep, entries):
         if memo_field is None:
             rep.anchor_missing("C05.12", "the Undefined insert of %s in typed HIR" % name)
             continue
-        # the computation: the let-bound IsEmptyStatus computed by a call that may re-enter (first IsEmptyStatus-typed let whose
-        # initialiser calls a local function), found at the top level of the body
         stmts = body["block"]["stmts"] if body.get("k") == "BlockExpr" else []
         comp_i, comp_lid = None, None
         for i, st in enumerate(stmts):
@@ -973,32 +1003,67 @@ def revocable_memo_rule(F, rep, entries):
         if comp_i is None:
             rep.anchor_missing("C05.12", "the let-bound result of the emptiness computation in %s" % name)
             continue
-        # outcome dispatch on the computed status after the computation
-        not_empty_regions, empty_regions = [], []
-        for st in stmts[comp_i + 1:]:
-            for n in walk(st):
-                if n["k"] == "Match" and any(x["k"] == "Path" and x.get("lid") == comp_lid for x in walk(n["scrut"])):
-                    for a in n["arms"]:
-                        d = (a["pat"].get("def") or "")
-                        if d.endswith("IsEmptyStatus::NotEmpty"):
-                            not_empty_regions.append(a["body"])
-                        elif d.endswith("IsEmptyStatus::IsEmpty"):
-                            empty_regions.append(a["body"])
-                        elif a["pat"]["k"] in ("P.Wild", "P.Binding"):
-                            # the catch-all stands for whichever outcome is not named
-                            named = {(b["pat"].get("def") or "").rsplit("::", 1)[-1] for b in n["arms"]}
-                            (empty_regions if "NotEmpty" in named else not_empty_regions).append(a["body"])
-                if n["k"] == "If" and n["cond"]["k"] in ("Binary", "Let", "Call", "MethodCall", "Unary") and \
-                        any(x["k"] == "Path" and x.get("lid") == comp_lid for x in walk(n["cond"])):
-                    defs = [(x.get("def") or "") for x in walk(n["cond"])]
-                    neg = n["cond"]["k"] == "Unary" or (n["cond"]["k"] == "Binary" and n["cond"].get("op") == "Ne")
-                    is_ne = any(d.endswith("IsEmptyStatus::NotEmpty") for d in defs)
-                    is_e = any(d.endswith("IsEmptyStatus::IsEmpty") for d in defs)
-                    if is_ne or is_e:
-                        then_is_not_empty = (is_ne and not neg) or (is_e and neg)
-                        (not_empty_regions if then_is_not_empty else empty_regions).append(n["then"])
-                        if n.get("else"):
-                            (empty_regions if then_is_not_empty else not_empty_regions).append(n["else"])
+
+        def dispatch(nodes, status_lid):
+            ne, em = [], []
+            for st in nodes:
+                for n in walk(st):
+                    if n["k"] == "Match" and any(x["k"] == "Path" and x.get("lid") == status_lid for x in walk(n["scrut"])):
+                        named = {(b["pat"].get("def") or "").rsplit("::", 1)[-1] for b in n["arms"]}
+                        for a in n["arms"]:
+                            d = (a["pat"].get("def") or "")
+                            if d.endswith("IsEmptyStatus::NotEmpty"):
+                                ne.append(a["body"])
+                            elif d.endswith("IsEmptyStatus::IsEmpty"):
+                                em.append(a["body"])
+                            elif a["pat"]["k"] in ("P.Wild", "P.Binding"):
+                                (em if "NotEmpty" in named else ne).append(a["body"])
+                    if n["k"] == "If" and n["cond"]["k"] in ("Binary", "Let", "Call", "MethodCall", "Unary") and \
+                            any(x["k"] == "Path" and x.get("lid") == status_lid for x in walk(n["cond"])):
+                        defs = [(x.get("def") or "") for x in walk(n["cond"])]
+                        neg = n["cond"]["k"] == "Unary" or (n["cond"]["k"] == "Binary" and n["cond"].get("op") == "Ne")
+                        is_ne = any(d.endswith("IsEmptyStatus::NotEmpty") for d in defs)
+                        is_e = any(d.endswith("IsEmptyStatus::IsEmpty") for d in defs)
+                        if is_ne or is_e:
+                            then_ne = (is_ne and not neg) or (is_e and neg)
+                            (ne if then_ne else em).append(n["then"])
+                            if n.get("else"):
+                                (em if then_ne else ne).append(n["else"])
+            return ne, em
+        # frame: where the dispatch sits, and how its parameters read at the call in the entry point
+        frame_tree, argmap, frame_gid = tree, {}, f.id
+        not_empty_regions, empty_regions = dispatch(stmts[comp_i + 1:], comp_lid)
+        if not not_empty_regions and not empty_regions:
+            for st in stmts[comp_i + 1:]:
+                for n in walk(st):
+                    if n["k"] not in ("Call", "MethodCall"):
+                        continue
+                    args = ([n["recv"]] if n["k"] == "MethodCall" else []) + list(n["args"])
+                    pos = [ai for ai, a in enumerate(args) if any(x["k"] == "Path" and x.get("lid") == comp_lid for x in walk(a)) and len(list(walk(a))) <= 3]
+                    cal = n.get("callee") if n["k"] == "Call" else (n.get("resolved") or n.get("callee"))
+                    tg = F._callee_gid(f.crate, cal or "")
+                    if not pos or tg not in F.hir:
+                        continue
+                    ht = F.hir[tg]
+                    hp = [p.get("lid") if p["k"] == "P.Binding" else None for p in ht["params"]]
+                    if pos[0] >= len(hp) or hp[pos[0]] is None:
+                        continue
+                    hstm = ht["body"]["block"]["stmts"] + ([ht["body"]["block"]["expr"]] if ht["body"]["block"].get("expr") else []) if ht["body"].get("k") == "BlockExpr" else [ht["body"]]
+                    ne2, em2 = dispatch(hstm, hp[pos[0]])
+                    revokes2 = any(x["k"] == "MethodCall" and x.get("method") in ("remove", "clear", "retain", "split_off", "remove_entry") and _ctx_field(x["recv"]) == memo_field
+                                   for reg in ne2 for x, _o in _walk_node_inlined(F, reg, f.crate, 2))
+                    if (ne2 or em2) and (revokes2 or not (not_empty_regions or empty_regions)):
+                        not_empty_regions, empty_regions = ne2, em2
+                        frame_tree, frame_gid = ht, tg
+                        argmap = {hp[ai]: a for ai, a in enumerate(args) if ai < len(hp) and hp[ai] is not None}
+        def in_caller(e):
+            """an expression of the frame, read in the entry point (helper parameters replaced by the arguments)"""
+            e2 = e
+            while isinstance(e2, dict) and e2.get("k") in ("AddrOf", "Deref", "DropTemps"):
+                e2 = e2["e"]
+            if isinstance(e2, dict) and e2.get("k") == "Path" and e2.get("lid") in argmap:
+                return argmap[e2["lid"]]
+            return e
         # (1) the not-empty outcome revokes
         revokers, cleared = [], False
         for reg in not_empty_regions:
@@ -1010,10 +1075,9 @@ def revocable_memo_rule(F, rep, entries):
         rep.ob("C05.12", "%s/not-empty-revokes" % name, bool(revokers),
                "the not-empty outcome of %s removes nothing from %s: `empty` answers computed under the refuted assumption that this type is empty stay memoised "
                "(accepted: a revocation log popped back to the length taken before the computation, or clearing the table)" % (name, memo_field),
-               f.loc(), sample={"fn": name, "memo": memo_field, "revoking_sites": len(revokers), "not_empty_regions": len(not_empty_regions)})
+               f.loc(), sample={"fn": name, "memo": memo_field, "revoking_sites": len(revokers), "not_empty_regions": len(not_empty_regions), "dispatch_in": frame_gid})
         if not revokers or cleared:
             continue
-        # the revocation log idiom
         call_with_mark = None
         for reg in not_empty_regions:
             for x in walk(reg):
@@ -1024,15 +1088,15 @@ def revocable_memo_rule(F, rep, entries):
                                            for y, _ in _walk_node_inlined(F, F.hir[tg]["body"], f.crate, 1)):
                         call_with_mark = (x, tg)
         if call_with_mark is None:
-            # removal spelled inline in the entry point: judged by (2)..(4) on the entry point itself
-            call_with_mark = (None, f.id)
+            call_with_mark = (None, frame_gid)
         cx, g = call_with_mark
         gtree = F.hir[g]
-        # (2) the mark: an argument of the revoker call that is a local bound from `<log>.len()` BEFORE the computation
+        # (2) the mark
         log_field, mark_ok, mark_pos = None, False, None
         if cx is not None:
             args = ([cx["recv"]] if cx["k"] == "MethodCall" else []) + list(cx["args"])
             for ai, a in enumerate(args):
+                a = in_caller(a)
                 for y in walk(a):
                     if y["k"] == "Path" and y.get("res") == "local":
                         for i, st in enumerate(stmts):
@@ -1050,15 +1114,27 @@ def revocable_memo_rule(F, rep, entries):
         for reg in empty_regions:
             for x in walk(reg):
                 if x["k"] == "MethodCall" and x.get("method") == "push" and _ctx_field(x["recv"]) == (log_field or _ctx_field(x["recv"])):
+                    payloads = [x["args"][0]]
+                    # `push(make_entry())` with make_entry a closure handed in by the entry point
                     for y in walk(x["args"][0]):
-                        if y["k"] in ("Call", "Struct") and (y.get("callee") or y.get("def") or "").startswith("subtyping::"):
-                            keys = {z.get("lid") for z in walk(y) if z["k"] == "Path" and z.get("res") == "local"}
-                            if keys & key_lids:
-                                pushed_variants.add((y.get("callee") or y.get("def")))
+                        if y["k"] == "Call" and isinstance(y.get("f"), dict) and y["f"].get("k") == "Path" and y["f"].get("lid") in argmap:
+                            c0 = argmap[y["f"]["lid"]]
+                            while isinstance(c0, dict) and c0.get("k") in ("AddrOf", "DropTemps"):
+                                c0 = c0["e"]
+                            if isinstance(c0, dict) and c0.get("k") == "Closure":
+                                payloads.append(c0["body"])
+                        if y["k"] == "Path" and y.get("lid") in argmap:
+                            payloads.append(argmap[y["lid"]])
+                    for pl in payloads:
+                        for y in walk(pl):
+                            if y["k"] in ("Call", "Struct") and (y.get("callee") or y.get("def") or "").startswith("subtyping::"):
+                                keys = {z.get("lid") for z in walk(y) if z["k"] == "Path" and z.get("res") == "local"}
+                                if keys & key_lids:
+                                    pushed_variants.add((y.get("callee") or y.get("def")))
         rep.ob("C05.12", "%s/empty-answer-logged" % name, bool(pushed_variants),
                "the `empty` outcome of %s is not recorded in the revocation log under the key it is memoised under: a later refutation cannot find it" % name,
                f.loc(), sample={"fn": name, "logged_as": sorted(pushed_variants)})
-        # (4) the revoker pops the log back to the mark and removes, for the variant this entry point logs, from this entry point's table
+        # (4) the revoker
         ok_family = False
         for n in walk(gtree["body"]):
             if n["k"] == "Match":
@@ -1069,18 +1145,27 @@ def revocable_memo_rule(F, rep, entries):
                             if y["k"] == "MethodCall" and y.get("method") in ("remove", "remove_entry") and _ctx_field(y["recv"]) == memo_field and \
                                     bound & {z.get("lid") for z in walk(y["args"][0]) if z["k"] == "Path" and z.get("res") == "local"}:
                                 ok_family = True
+            if n["k"] in ("LetStmt", "Let") and n.get("init") is not None and n.get("els") is not None or (n["k"] == "If" and n["cond"].get("k") == "Let"):
+                # `let Some(Variant(k)) = log.pop() else { break }` / `if let Variant(k) = e { table.remove(&k) }`
+                pat = n["pat"] if n["k"] in ("LetStmt", "Let") else n["cond"]["pat"]
+                if any((y.get("def") or "") in pushed_variants for y in walk(pat)):
+                    bound = {y.get("lid") for y in walk(pat) if y["k"] == "P.Binding"}
+                    for y in walk(gtree["body"]):
+                        if y["k"] == "MethodCall" and y.get("method") in ("remove", "remove_entry") and _ctx_field(y["recv"]) == memo_field and \
+                                bound & {z.get("lid") for z in walk(y["args"][0]) if z["k"] == "Path" and z.get("res") == "local"}:
+                            ok_family = True
         rep.ob("C05.12", "%s/revoker-removes-from-own-table" % name, ok_family,
                "the revoker %s does not remove the keys logged by %s (%s) from %s, the table %s memoises in" % (g, name, sorted(pushed_variants), memo_field, name),
                F.fns[g].loc() if g in F.fns else f.loc(), sample={"fn": name, "revoker": g, "memo": memo_field})
-        if g != f.id and mark_pos is not None:
+        if g != f.id and g != frame_gid and mark_pos is not None:
             gp = gtree["params"]
             mlid = gp[mark_pos].get("lid") if mark_pos < len(gp) and gp[mark_pos]["k"] == "P.Binding" else None
             bounded = False
             for n in walk(gtree["body"]):
                 if n["k"] == "Binary" and n.get("op") in ("Gt", "Ge", "Lt", "Le", "Ne"):
                     sides = [n["l"], n["r"]]
-                    plain = [s for s in sides if s["k"] == "Path" and s.get("lid") == mlid]
-                    lens = [s for s in sides if s["k"] == "MethodCall" and s.get("method") == "len" and _ctx_field(s["recv"]) == log_field]
+                    plain = [s_ for s_ in sides if s_["k"] == "Path" and s_.get("lid") == mlid]
+                    lens = [s_ for s_ in sides if s_["k"] == "MethodCall" and s_.get("method") == "len" and _ctx_field(s_["recv"]) == log_field]
                     if plain and lens:
                         bounded = True
                 if n["k"] == "MethodCall" and n.get("method") in ("drain", "split_off", "truncate") and _ctx_field(n["recv"]) == log_field:
